@@ -296,3 +296,38 @@ def fsck(mirror_repo_dir, cfg_repo, strict_unpublished=False):
                     elif os.path.getsize(fp_) != size:
                         problems.append(f"{cn}: {base} references {path} with size {size}, on disk {os.path.getsize(fp_)}")
     return problems
+
+
+def referenced_pool_of_tree(dists_dir, cfg_repo):
+    """{pool path: size} referenced by the selected Packages/Sources indices present under dists_dir
+    (any variant that decompresses), after filters, minus ignore_errors paths"""
+    refs = {}
+    flt = cfg_repo.get("filters", {})
+    ign = cfg_repo.get("ignore_errors", [])
+    for cn, cfg_cn in cfg_repo["codenames"].items():
+        ddir = os.path.join(dists_dir, cn)
+        for comp, c in cfg_cn.items():
+            cands = []
+            if c["arches"]:
+                for a in list(c["arches"]) + ["all"]:
+                    cands.append(("binary", os.path.join(ddir, comp, f"binary-{a}", "Packages")))
+            if c["source"]:
+                cands.append(("source", os.path.join(ddir, comp, "source", "Sources")))
+            for kind, basep in cands:
+                text = None
+                for ext in (".xz", ".gz", ".bz2", ""):
+                    p = basep + ext
+                    if os.path.isfile(p):
+                        try:
+                            with open(p, "rb") as fp:
+                                text = OPENERS[ext](fp.read()).decode("utf-8", "replace")
+                            break
+                        except Exception:
+                            continue
+                if text is None:
+                    continue
+                pool = pool_of_packages(text, flt) if kind == "binary" else pool_of_sources(text, flt)
+                for path, size in pool.items():
+                    if not ignored(ign, path):
+                        refs[path] = size
+    return refs
